@@ -58,6 +58,7 @@ MInit(h) ==
     cgrants |-> {},                                    \* processes granted in the current batch
     csub    |-> {},                                    \* guards the condition is subscribed to
     rec     |-> [o \in Guards |-> [on |-> FALSE, t0 |-> 0, traj |-> <<>>]],
+    gone    |-> {},                                    \* <<guard, process>> taken out of the condition's list since the last operation
     actor   |-> [p |-> 0, op |-> "none"],                \* who performed the step that the next snapshot closes
     snap    |-> [t |-> -1] ]
 
@@ -251,7 +252,15 @@ OnDo(m, e) ==
          [m |-> [m EXCEPT !.prio[a[1]] = a[2],
                           !.gq = [g \in Guards |-> {IF x.p = a[1] THEN [x EXCEPT !.pr = a[2]] ELSE x : x \in @[g]}]], bad |-> {}]
     [] e.op = "rel" ->
-         [m |-> [m EXCEPT !.holder[a[1]] = 0], bad |-> IF m.holder[a[1]] # p THEN Bad("C05", "release-by-process-that-is-not-the-holder-of-record") ELSE {}]
+         \* a release signals the resource's guard; a condition subscribed to it must have evaluated all its waiters
+         LET evald == {x.p : x \in m.preds}
+             trues == {x.p : x \in {y \in m.preds : y.v}}
+             fwdMissing == a[1] \in m.csub /\ \E x \in m.gq[GCOND] : x.p \notin evald
+             fwdLost == a[1] \in m.csub /\ trues \ m.cgrants # {}
+         IN [m |-> [m EXCEPT !.holder[a[1]] = 0],
+             bad |-> (IF m.holder[a[1]] # p THEN Bad("C05", "release-by-process-that-is-not-the-holder-of-record") ELSE {})
+                \cup (IF fwdMissing THEN Bad("C13", "observed-guard-signalled-but-condition-waiter-not-evaluated") ELSE {})
+                \cup (IF fwdLost THEN Bad("C13", "satisfied-waiter-not-resumed-by-forwarded-signal") ELSE {})]
     [] e.op = "prel" ->
          [m |-> [m EXCEPT !.pheld[p] = e.out[1]], bad |-> IF e.out[1] # m.pheld[p] - a[1] THEN Bad("C07", "release-did-not-lower-holding-by-n") ELSE {}]
     [] e.op = "pqcancel" ->
@@ -265,12 +274,14 @@ OnDo(m, e) ==
              evald == {x.p : x \in m.preds}
          IN [m |-> [m EXCEPT !.preds = {}],
              bad |-> IF trues \ m.cgrants # {} THEN Bad("C13", "satisfied-waiter-not-resumed-by-signal") ELSE {}]
-    [] e.op = "ccancel" ->
-         [m |-> IF e.out[1] = 1 THEN AddCause([m EXCEPT !.gq[GCOND] = {x \in @ : x.p # a[1]}], a[1], "ccancel", CANCELLED, t) ELSE m,
-          bad |-> IF (e.out[1] = 1) # (\E x \in m.gq[GCOND] : x.p = a[1]) THEN Bad("C13", "cancel-result-disagrees-with-queue") ELSE {}]
-    [] e.op = "cremove" ->
-         [m |-> IF e.out[1] = 1 THEN [m EXCEPT !.gq[GCOND] = {x \in @ : x.p # a[1]}] ELSE m,
-          bad |-> IF (e.out[1] = 1) # (\E x \in m.gq[GCOND] : x.p = a[1]) THEN Bad("C13", "remove-result-disagrees-with-queue") ELSE {}]
+    [] e.op \in {"ccancel", "cremove"} ->
+         \* m.gone = who left which waiting list during this call (guard hooks)
+         LET was == (\E x \in m.gq[GCOND] : x.p = a[1]) \/ <<GCOND, a[1]>> \in m.gone
+             exact == m.gone \subseteq {<<GCOND, a[1]>>}
+             m1 == [m EXCEPT !.gq[GCOND] = {x \in @ : x.p # a[1]}, !.gone = {}]
+         IN [m |-> IF e.op = "ccancel" /\ e.out[1] = 1 THEN AddCause(m1, a[1], "ccancel", CANCELLED, t) ELSE m1,
+             bad |-> (IF (e.out[1] = 1) # was THEN Bad("C13", "cancel-or-remove-result-disagrees-with-queue") ELSE {})
+                \cup (IF ~exact THEN Bad("C13", "cancel-or-remove-took-out-another-process") ELSE {})]
     [] e.op = "csub" -> [m |-> [m EXCEPT !.csub = @ \cup {IF a[1] = 0 THEN 1 ELSE GBUFF}], bad |-> {}]
     [] e.op = "evcancel" ->
          IF e.out[1] = 1
@@ -417,7 +428,8 @@ Core(m, e) ==
               ELSE [m |-> [m EXCEPT !.gq[e.g] = S \ me, !.cgrants = IF e.g = GCOND THEN @ \cup {e.p} ELSE @],
                     bad |-> IF me # {} /\ ~IsBest(S, CHOOSE x \in me : TRUE)
                               THEN Bad("C06", "waiter-served-ahead-of-higher-priority-or-earlier-waiter") ELSE {}]
-    [] e.e \in {"GuardCancel", "GuardRemove"} -> [m |-> [m EXCEPT !.gq[e.g] = {x \in @ : x.p # e.p}], bad |-> {}]
+    [] e.e \in {"GuardCancel", "GuardRemove"} ->
+         [m |-> [m EXCEPT !.gq[e.g] = {x \in @ : x.p # e.p}, !.gone = IF e.g = GCOND THEN @ \cup {<<e.g, e.p>>} ELSE @], bad |-> {}]
     [] e.e = "GuardLeave" -> [m |-> [m EXCEPT !.gq[e.g] = {x \in @ : x.p # e.p}], bad |-> {}]
     [] e.e = "Pred" -> [m |-> [m EXCEPT !.preds = @ \cup {[p |-> e.p, v |-> e.v]}], bad |-> {}]
     [] e.e = "CSigBegin" -> [m |-> [m EXCEPT !.preds = {}], bad |-> {}]
@@ -435,5 +447,7 @@ MStep(m, e) ==
              ELSE IF e.e \in {"Enter", "Return", "ExitCall", "StopCall"} THEN [p |-> e.p, op |-> e.e]
              ELSE IF e.e = "UEvent" THEN [p |-> 0, op |-> "UEvent"]
              ELSE r.m.actor
-  IN [m |-> [r.m EXCEPT !.actor = act], bad |-> adv.bad \cup r.bad]
+      boundary == e.e \in {"Call", "Ret", "Do", "Disp"}
+  IN [m |-> [r.m EXCEPT !.actor = act, !.gone = IF boundary THEN {} ELSE @, !.preds = IF boundary THEN {} ELSE @],
+      bad |-> adv.bad \cup r.bad]
 =============================================================================
